@@ -16,6 +16,41 @@ class Unknown(Exception):
     pass
 
 
+def _local_def(fn, name):
+    """The one assignment `name = <expr>` that provably reaches the use: either the only assignment
+    of that name in the function, or the latest one above the use that is a sibling of a statement
+    containing the use (same straight-line block), with no loop around the use re-assigning it."""
+    defs = [n for n in ast.walk(fn) if isinstance(n, ast.Assign) and len(n.targets) == 1
+            and isinstance(n.targets[0], ast.Name) and n.targets[0].id == name.id]
+    dt = {id(d.targets[0]) for d in defs}
+    others = [t for t in ast.walk(fn) if isinstance(t, ast.Name) and t.id == name.id
+              and isinstance(t.ctx, ast.Store) and id(t) not in dt]
+    if len(defs) == 1 and not others:
+        return defs[0]
+    if not hasattr(name, "lineno"):
+        return None
+    above = [d for d in defs if d.end_lineno < name.lineno]
+    if not above:
+        return None
+    d = max(above, key=lambda x: x.lineno)
+    for blk in ast.walk(fn):
+        for field in ("body", "orelse", "finalbody"):
+            stmts = getattr(blk, field, None)
+            if not isinstance(stmts, list) or d not in stmts:
+                continue
+            after = stmts[stmts.index(d) + 1:]
+            holder = [s_ for s_ in after if any(x is name for x in ast.walk(s_))]
+            if not holder:
+                return None
+            between = after[:after.index(holder[0])]
+            for s_ in between + holder[:1]:
+                for x in ast.walk(s_):
+                    if isinstance(x, ast.Name) and x.id == name.id and isinstance(x.ctx, ast.Store):
+                        return None
+            return d
+    return None
+
+
 def ev(e, env):
     key = norm(e)
     if key in env:
@@ -106,6 +141,16 @@ def ev(e, env):
                 out.append(ev(e.elt, env2))
         return frozenset(out) if isinstance(e, ast.SetComp) else tuple(out)
     if isinstance(e, ast.Name):
+        fn = env.get("__fn__")
+        if fn is not None:
+            d = _local_def(fn, e)
+            busy = env.setdefault("__busy__", set())
+            if d is not None and e.id not in busy:
+                busy.add(e.id)
+                try:
+                    return ev(d.value, env)
+                finally:
+                    busy.discard(e.id)
         raise Unknown(key)
     if isinstance(e, ast.Call) and isinstance(e.func, ast.Name) and not e.keywords:
         args = [ev(a, env) for a in e.args]
